@@ -335,6 +335,8 @@ static const Seed *ref_of (const Seed *s)
 {	for (int i = 0 ; i < hc_nseeds ; i++) if (! strcmp (hc_seeds [i].fam, s->fam) && hc_seeds [i].chunk_kind == s->chunk_kind) return &hc_seeds [i] ;
 	return s ;
 }
+int hc_is_reference (const Seed *s) { return ref_of (s) == s || ! strncmp (s->name, "rich:", 5) || ! strncmp (s->name, "crafted:", 8) ; }
+
 static int positions_of (const Seed *s, sf_count_t *q, int max)
 {	const Seed *r = ref_of (s) ; int n = 0 ; sf_count_t cap = vl_opts.thorough ? 1200 : 600 ;
 	if (vl_opts.thorough || r == s || ! strncmp (s->name, "rich:", 5) || ! strncmp (s->name, "crafted:", 8))
